@@ -1457,6 +1457,84 @@ func ruleProdConsumer(w *World, r *RuleResult) {
 				}
 				key := m.name + "/" + fn.Name()
 				pos := w.Pos(fn.Pos())
+				if p.End == "backedge" && set&tb != 0 {
+					// the token is terminal and the loop goes round once more — but only to find the flag
+					// it has just set: a loop variable that becomes true here, and which every
+					// iteration that receives again requires to be false
+					be := p.Events[len(p.Events)-1]
+					hdr := int(be.Res.C)
+					var phis []string
+					if hdr < len(fn.Blocks) {
+						for _, in := range fn.Blocks[hdr].Instrs {
+							if ph, ok := in.(*ssa.Phi); ok {
+								phis = append(phis, ph.Comment)
+							}
+						}
+					}
+					flagged := false
+					for k, a := range be.Args {
+						if k >= len(phis) {
+							continue
+						}
+						// the values of the token's type for which the new flag is true cover every
+						// terminal type the token can still have on this path
+						var flagTrue func(t *T) (uint64, bool)
+						flagTrue = func(t *T) (uint64, bool) {
+							t = stripConv(t)
+							switch {
+							case t.IsConstVal(1):
+								return ^uint64(0), true
+							case t.IsConstVal(0):
+								return 0, true
+							case t.Op == "eq" && t.A[1].IsConst() && t.A[1].C >= 0 && t.A[1].C < 64 && stripEpoch(stripConv(t.A[0])).Key() == tk:
+								return 1 << uint(t.A[1].C), true
+							case t.Op == "or" && len(t.A) == 2:
+								x, ok1 := flagTrue(t.A[0])
+								y, ok2 := flagTrue(t.A[1])
+								return x | y, ok1 && ok2
+							}
+							return 0, false
+						}
+						ft, okf := flagTrue(a)
+						if !okf || (set&tb)&^ft != 0 {
+							continue
+						}
+						guards := true
+						nq := 0
+						for _, q := range paths {
+							inThis := q.Start == hdr
+							for i := range q.Events {
+								if e := &q.Events[i]; e.Kind == "enterloop" && e.Res != nil && int(e.Res.C) == hdr {
+									inThis = true
+								}
+							}
+							if !inThis {
+								continue
+							}
+							receives := false
+							for i := range q.Events {
+								e := &q.Events[i]
+								if e.Kind == "recv" || (e.Kind == "call" && e.Callee != nil && e.Callee.Signature.Recv() != nil && receivesOnce(w, e.Callee)) {
+									receives = true
+								}
+							}
+							if !receives {
+								continue
+							}
+							nq++
+							if !hasCond(q, func(c *T, v bool) bool { return c.Op == "loopvar" && c.S == phis[k] && int(c.C) == hdr && !v }) {
+								guards = false
+							}
+						}
+						if guards && nq > 0 {
+							flagged = true
+						}
+					}
+					if flagged {
+						d.add(true, key+"/continues-only-on-non-terminal", pos, "after a terminal token the loop only goes on to test the stop flag it has just set", "")
+						continue
+					}
+				}
 				if p.End == "backedge" {
 					d.add(set&tb == 0, key+"/continues-only-on-non-terminal", pos, "the receive loop continues only when the token is neither EOF nor Error", "the receive loop continues after a token that may be EOF/Error: the producer has stopped, so the next receive blocks forever")
 				} else if p.End == "ret" && set&^tb == 0 {
